@@ -108,7 +108,7 @@ type hist struct {
 	cs      []*cli
 	ups     []*upRec
 	lines   [][2]string // op text, observable
-	fails   [][2]string // monitor, message
+	fails   [][3]string // property, monitor, message
 	checked map[string]int
 	notes   map[string]int
 	tainted bool
@@ -122,7 +122,12 @@ type hist struct {
 	// (client, stream id) pairs for which the history is built to show a known
 	// discrepancy: the monitor records a note instead of a violation
 	knownMiss map[[2]int]string
-	forceWait bool // let the REAL goroutines of pushConn fire (no hook)
+	// nomodel: the history runs on REAL time (the 200 ms goroutines of pushConn):
+	// its operations are not written to the trace (no comparison with the
+	// model: their interleaving with the goroutines depends on the wall clock)
+	// and only the monitor onlyMonitor, which polls, is evaluated
+	nomodel     bool
+	onlyMonitor string
 }
 
 func newHist(t *tr.Trace, r *tr.Rand, stream string, n int) *hist {
@@ -169,7 +174,19 @@ func (c *cli) reset() {
 }
 
 func (h *hist) fail(monitor, msg string) {
-	h.fails = append(h.fails, [2]string{monitor, msg})
+	if h.nomodel && monitor != h.onlyMonitor {
+		return // a history run on real time: only its own, polling monitor counts
+	}
+	h.fails = append(h.fails, [3]string{"C07", monitor, msg})
+}
+
+// failProp reports a violation under another property whose statement the
+// history also exercises (C04: limitSid follows the request).
+func (h *hist) failProp(property, monitor, msg string) {
+	if h.nomodel {
+		return
+	}
+	h.fails = append(h.fails, [3]string{property, monitor, msg})
 }
 func (h *hist) check(monitor string) { h.checked[monitor]++ }
 func (h *hist) note(k string)        { h.notes[k]++ }
@@ -193,11 +210,22 @@ func (h *hist) end(key string) bool {
 	if ps := h.w.Panics(); len(ps) > 0 {
 		h.fail("no_panic", strings.Join(ps, "; "))
 	}
+	// a delayed push that the harness fired must still be marked as pushed:
+	// otherwise an OnTrack slipped in after it and a real goroutine is (or was)
+	// about to push on its own
+	for _, u := range h.ups {
+		if u.pushed && !u.up.Pushed() {
+			h.tainted = true
+		}
+	}
 	if h.tainted {
-		h.t.Note("discarded-real-timer-interfered")
+		h.t.Note("disturbed-by-timing")
 		return false
 	}
 	h.t.History("subscribe", h.stream, h.n)
+	if h.nomodel {
+		h.lines = nil
+	}
 	for _, l := range h.lines {
 		toks := strings.Split(l[0], " ")
 		args := make([]interface{}, len(toks)-1)
@@ -208,7 +236,11 @@ func (h *hist) end(key string) bool {
 	}
 	for k, v := range h.checked {
 		for i := 0; i < v; i++ {
-			h.t.Checked("C07." + k)
+			if strings.HasPrefix(k, "C04.") {
+				h.t.Checked(k)
+			} else {
+				h.t.Checked("C07." + k)
+			}
 		}
 	}
 	for k, v := range h.notes {
@@ -217,7 +249,7 @@ func (h *hist) end(key string) bool {
 		}
 	}
 	for _, f := range h.fails {
-		h.t.Fail("C07", f[0], f[1])
+		h.t.Fail(f[0], f[1], f[2])
 	}
 	if key != "" {
 		h.t.Nontrivial(key)
@@ -336,9 +368,18 @@ func (h *hist) obsString(withClose bool) string {
 				}
 			}
 			sort.Strings(trs)
+			// limitSid of the down tracks: L all set, - none, ? mixed
 			lim := "-"
-			if len(trs) > 0 && d.LimitSid[0] {
+			nl := 0
+			for _, l := range d.LimitSid {
+				if l {
+					nl++
+				}
+			}
+			if nl > 0 && nl == len(d.LimitSid) {
 				lim = "L"
+			} else if nl > 0 {
+				lim = "?"
 			}
 			downs = append(downs, fmt.Sprintf("%d/%d/%d/%s/%s/%s/%s", num(d.Id), num(d.RemoteOwner), num(d.RemoteId),
 				dash(strings.Join(trs, "+")), lim, reqString(d.HasRequested, d.Requested), tr.B(d.HaveLocal)))
@@ -549,8 +590,25 @@ func (h *hist) offerSDP(c *cli, id, label, replace int, sdpKind string, sdp stri
 			h.collision[replace] = true
 		}
 	}
+	h.drain()
+	// A second offer for an EXISTING connection: whether pion accepts it depends
+	// on what the peer connection has been through (e.g. one created by an offer
+	// that was refused does not accept a good offer later).  Negotiation is an
+	// oracle of the model: the trace records what pion decided.
+	if prev != nil && sdpKind == "g" && rec == nil {
+		answered := false
+		for _, o := range c.new {
+			if o.typ == "answer" && o.id == id {
+				answered = true
+			}
+		}
+		if !answered {
+			sdpKind = "m"
+			h.note("second-offer-refused-by-pion")
+		}
+	}
 	h.line(status(c, res)+" new="+newS, "offer %d %d %d %d %s", c.h, id, label, replace, sdpKind)
-	h.after(c, "offer", id, db, gb)
+	h.perOpMonitors(c, "offer", id, db, gb)
 	return rec
 }
 
@@ -724,10 +782,12 @@ func (h *hist) quiesce() {
 
 // establish publishes a REAL stream: an in-process pion publisher sends the
 // offer, takes galene's answer and candidates, and sends RTP until OnTrack
-// has fired for every track.  The driver does nothing else meanwhile.  If
-// everything is there early enough the delayed push is fired through the
-// hook (one push with all the tracks); otherwise the driver waits for the
-// real goroutines and the next observation does not compare `close`.
+// has fired for every track.  The driver does nothing else meanwhile.  Then
+// the delayed push is fired through the hook (one push with all the tracks).
+// If that did not happen within the push delay of the offer (slow ICE, loaded
+// machine) a real goroutine of pushConn may have pushed on its own at a moment
+// the harness does not control: the history is marked as disturbed, discarded
+// and run again (see end); nothing that depends on the wall clock is compared.
 func (h *hist) establish(c *cli, id, label, replace int, kinds []string) *upRec {
 	return h.establishWith(c, id, label, replace, kinds, nil)
 }
@@ -786,29 +846,24 @@ func (h *hist) establishWith(c *cli, id, label, replace int, kinds []string, bet
 	rec.timers += len(got)
 	rec.pushed = false
 	h.line(strconv.Itoa(len(got)), "track %d %s", rec.k, strings.Join(letters, ","))
-	if !h.forceWait && time.Since(rec.created) < 140*time.Millisecond {
-		h.timer(rec) // fires: one push with all the tracks
-		if h.lines[len(h.lines)-1][1] != "1" {
-			h.tainted = true
-		}
-		for rec.timers > 0 {
-			h.timer(rec)
-		}
-		h.note("established-by-hook")
-	} else {
-		// wait until every goroutine of pushConn has run
-		time.Sleep(260 * time.Millisecond)
-		h.line("1", "timer %d", rec.k)
-		rec.timers--
-		rec.pushed = true
-		for rec.timers > 0 {
-			h.line("0", "timer %d", rec.k)
-			rec.timers--
-		}
-		h.lenient = true
-		rec.lenient = true
-		h.drain()
-		h.note("established-by-waiting")
+	// Fire the delayed push through the hook: one push with all the tracks.
+	// The history is undisturbed only if the hook did push (no real goroutine
+	// had done the test-and-set since the last OnTrack) AND less than the push
+	// delay has passed since the offer when it returns (time.Sleep never wakes
+	// early: no real goroutine of this stream can have run at all) AND no
+	// pushConn of an OnTrack slips in afterwards (checked here after a pause and
+	// again when the history ends).
+	h.timer(rec)
+	if h.lines[len(h.lines)-1][1] != "1" || time.Since(rec.created) >= 185*time.Millisecond {
+		h.tainted = true
 	}
+	for rec.timers > 0 {
+		h.timer(rec)
+	}
+	time.Sleep(2 * time.Millisecond)
+	if !rec.up.Pushed() {
+		h.tainted = true
+	}
+	h.note("established-by-hook")
 	return rec
 }
